@@ -237,6 +237,56 @@ void fut_program() {
 }
 #endif
 
+#if C20_PART == 0
+// ----------------------------------------------------------------- a pipeline of futures: the callback awaiter of future #1 resolves promise #2
+// from inside its notification (resolution nested in the walk of another awaiter chain); future #2 has a waiter of its own at that moment, or none.
+struct ChainCtx { Fut *c2; int outcome, d, style, called; std::exception_ptr *exc; };
+suspend_point<void> cb_chain(awaiter *, void *ctx) noexcept {
+    ChainCtx *x = static_cast<ChainCtx *>(ctx);
+    ++x->called;
+    if (x->style == 0) { do_resolve(x->c2->p, x->outcome, x->d, *x->exc); return {}; }       // suspend point discarded inside the callback
+    suspend_point<bool> sp = do_resolve(x->c2->p, x->outcome, x->d, *x->exc);                  // ... or handed back to whoever resolved future #1
+    suspend_point<void> r; r << std::move(sp); return r;
+}
+void fut_chain_program() {
+    g_mode = vf_choice(2);
+    const int outcome = vf_choice(4);
+    const int style = vf_choice(2);
+    const int n2 = vf_choice(3);          // waiters of future #2 (registered before the pipeline fires)
+    Fut c1, c2;
+    for (int i = 0; i < n2; ++i) c2.kinds[i] = vf_choice(K_N);
+    const int d = nondet_int();
+    const int tag = nondet_uchar();
+    std::exception_ptr exc = vf_make_exc(tag);
+    program_begin();
+    {
+        R_BEGIN();
+        future<T> f1, f2;
+        c1.p = f1.get_promise(); c2.p = f2.get_promise();
+        co_awaiter<future<T> > ca1(f1);
+        co_awaiter<future<T> > ca2[3] = {f2, f2, f2};
+        ChainCtx cx{&c2, outcome, d, style, 0, &exc};
+        R_END("creating future/promise pairs does not allocate");
+        for (int i = 0; i < n2; ++i) attach(c2, f2, ca2[i], i);
+        OP("registering a callback awaiter allocates nothing",
+           if (ca1.await_ready() || !ca1.await_suspend(&cb_chain, &cx)) { VF_ASSERT(false, "VF_SPEC harness: future #1 pending"); });
+        OP("resolving a promise whose callback waiter resolves another awaited promise allocates nothing",
+           do_resolve(c1.p, 0, d, exc));
+        VF_ASSERT(cx.called == 1 && f1.ready() && f2.ready(), "VF_SPEC harness: pipeline fired");
+        OP("a blocking waiter that was woken up allocates nothing",
+           for (int i = 0; i < n2; ++i) if (c2.kinds[i] == K_SYNC && c2.got[i] == 0) { c2.sa[i].wait_sync(); c2.got[i] = read_future(f2); });
+        OP("reading a resolved future allocates nothing", vf_out(read_future(f2)); vf_out(read_future(f1)));
+        for (int i = 0; i < n2; ++i) vf_out(c2.kinds[i] == K_CALLBACK ? c2.cb[i].called : c2.got[i]);
+        R_BEGIN();
+    }
+    R_END("destroying resolved futures allocates nothing");
+    program_end();
+    vf_choice_end();
+    vf_witness();
+}
+extern "C" void h_fut_chain() { fut_chain_program(); }
+#endif
+
 #if C20_PART == 4
 // ================================================================= mutex
 struct Mx {
